@@ -416,7 +416,7 @@ def run_shard(sh, deadline):
 def plan(tier, seed):
     shards = [{'kind': 'enc', 'm': m, 'tier': tier, 'seed': seed} for m in ALL]
     shards.sort(key=lambda s: -len(operands.FORMATS[s['m']]))
-    nprog = 16 if tier == 'quick' else 64
+    nprog = 16 if tier == 'quick' else 512
     per = 400 if tier == 'quick' else 1600
     shards += [{'kind': 'prog', 'idx': i, 'count': per, 'seed': seed} for i in range(nprog)]
     dcases = []
@@ -431,7 +431,7 @@ def plan(tier, seed):
     dcases.sort(key=lambda c: c['D'])
     nd = 32
     shards += [{'kind': 'dist', 'cases': dcases[i::nd]} for i in range(nd)]
-    shards += [{'kind': 'ctarget', 'seed': seed + i} for i in range(2 if tier == 'quick' else 16)]
+    shards += [{'kind': 'ctarget', 'seed': seed + i} for i in range(2 if tier == 'quick' else 128)]
     return {'shards': shards, 'budget_s': 240 if tier == 'quick' else 1500, 'exhaustive': False}
 
 
